@@ -28,7 +28,9 @@
 //                             n more heap-owning closures and one async() are issued (the first to run sets the
 //                             flag) and the process exits normally while they are still queued or running: static
 //                             destructors of the tasking system run with work pending. Printed by the parent after
-//                             the child has gone: -> "exit=<status> ran-twice=<number of closures that ran twice>"
+//                             the child has gone: -> "exit=<status> ran-twice=<number of closures that ran twice>
+//                             ran=<all | missing-k | ->" (ran: Internal backend only - every closure, and every
+//                             follow-up scheduled by a task that was still running at exit, has run)
 // Every case runs in a fresh child process (the tasking system is process-wide and cannot be shut down);
 // a case that does not finish within CASE_TIMEOUT_S is killed and reported like a crash (exit code 124).
 // A sanitizer report aborts the child; the runner attributes it to the case.
@@ -412,6 +414,9 @@ static std::string doDep(long n)
 struct LeaveShared {
   std::atomic<int> go;
   std::atomic<int> n;
+  std::atomic<int> parked;       // blockers that really parked on a worker thread
+  std::atomic<int> followed;     // follow-up closures (scheduled by a released blocker, i.e. from a task that is still
+                                 // running while the process exits) that ran
   std::atomic<int> counts[4096];
 };
 LeaveShared *g_leave = nullptr;
@@ -429,9 +434,11 @@ std::string doLeave(long n)
     tasking::schedule([=]() {
       if (std::this_thread::get_id() == caller)
         return;   // a backend (or a one-thread scheduler) that runs closures inline: nothing to park
+      L->parked++;
       auto t0 = std::chrono::steady_clock::now();
       while (!L->go.load() && std::chrono::steady_clock::now() - t0 < std::chrono::milliseconds(400))
         std::this_thread::yield();
+      tasking::schedule([=]() { L->followed++; });   // work handed over by a task that is still running at exit
     });
   for (long i = 0; i < n; ++i) {
     HeapState h = makeHeapState();
@@ -476,6 +483,38 @@ std::string step(const std::vector<std::string> &w)
     g_batches.push_back(std::move(b));
     for (size_t i = 0; i < n; ++i)
       scheduleOne(c + i, nest ? c + n + i : nullptr, kind);
+    return "ok";
+  }
+  if (op == "sched_lv" && w.size() == 2) {
+    // a NAMED closure (an lvalue owning heap state) handed to schedule() twice: schedule() takes its argument by value,
+    // so the caller's closure is intact for the second call; run k of closure i counts in slot 2*i + k
+    size_t n = (size_t)vh::to_ll(w[1]);
+    Batch b;
+    b.n = 2 * n;
+    b.counts.reset(new std::atomic<int>[b.n]);
+    for (size_t i = 0; i < b.n; ++i)
+      b.counts[i] = 0;
+    std::atomic<int> *c = b.counts.get();
+    g_batches.push_back(std::move(b));
+    std::atomic<int> *seq = new std::atomic<int>[n];   // never freed: a late run must not hit freed harness memory
+    for (size_t i = 0; i < n; ++i)
+      seq[i] = 0;
+    for (size_t i = 0; i < n; ++i) {
+      HeapState h = makeHeapState();
+      auto f = [=]() {
+        if (!h.ok())
+          g_stateBad++;
+        int k = seq[i].fetch_add(1);
+        if (k < 2)
+          c[2 * i + k].fetch_add(1);
+        else
+          c[2 * i].fetch_add(1);   // a third run shows up as a duplicate
+      };
+      tasking::schedule(f);
+      tasking::schedule(f);
+      if (!h.ok())
+        g_stateBad++;
+    }
     return "ok";
   }
   if (op == "wait_all")
@@ -537,6 +576,8 @@ int runCase(const std::vector<std::string> &lines)
   }
   g_leave->go = 0;
   g_leave->n = 0;
+  g_leave->parked = 0;
+  g_leave->followed = 0;
   for (auto &c : g_leave->counts)
     c = 0;
   pid_t pid = fork();
@@ -586,7 +627,18 @@ int runCase(const std::vector<std::string> &lines)
         ++twice;
     if (rc != 0)
       fprintf(stderr, "c02: the process that exited with scheduled work pending ended with status %d\n", rc);
-    vh::emit("exit=" + std::to_string(rc) + " ran-twice=" + std::to_string(twice));
+    // whether work that is still pending at exit gets run is the backend's business - except for the Internal backend,
+    // whose scheduler shuts down by running everything that is queued or still being produced by running tasks
+    std::string ran = "-";
+#ifdef RKCOMMON_TASKING_INTERNAL
+    int missing = 0;
+    for (int i = 0; i < g_leave->n.load(); ++i)
+      if (g_leave->counts[i].load() < 1)
+        ++missing;
+    missing += std::max(0, g_leave->parked.load() - g_leave->followed.load());
+    ran = missing == 0 ? "all" : "missing-" + std::to_string(missing);
+#endif
+    vh::emit("exit=" + std::to_string(rc) + " ran-twice=" + std::to_string(twice) + " ran=" + ran);
     fflush(stdout);
     return 0;
   }
